@@ -663,6 +663,17 @@ pub fn run_c19(ctx: &Ctx) -> Report {
         } else {
             rep.violate("generator-failed", "derive(ToStr) generator panicked", det(String::new()));
         }
+        // derive(IntoProgramError) on its own
+        let t3 = catch_plain(|| crate::macro_impl::into_program_error(&item.ident, &imp));
+        match t3 {
+            Res::Ok(t3) => {
+                let txt = norm(&t3);
+                if !txt.contains(&format!("impl From < {} > for _solana_program_error :: ProgramError", name)) || !txt.contains("ProgramError :: Custom (e as u32)") {
+                    rep.violate("into-program-error", "derive(IntoProgramError) does not convert a variant into Custom(discriminant)", det(txt));
+                }
+            }
+            _ => rep.violate("generator-failed", "derive(IntoProgramError) generator panicked", det(String::new())),
+        }
     }
     rep
 }
